@@ -8,6 +8,7 @@ context and log. Proofs: Proofs/EvalOps, Proofs/EvalOrder.
 -/
 import EvalexprVerif.Proofs.EvalOrder
 import EvalexprVerif.Proofs.EvalOnce
+import EvalexprVerif.Proofs.AgreeFnTree
 
 namespace Evalexpr.Spec.C08
 open Evalexpr Evalexpr.Spec
@@ -30,6 +31,15 @@ theorem C08_all_operands (op : Operator) (cs : List Node) (s s' : St) (vs : List
   Evalexpr.Spec.C08_all_operands op cs s s' vs h
 theorem C08_log_grows (n : Node) (s : St) : ∃ l, (n.evalMut s).2.log = s.log ++ l :=
   Evalexpr.Spec.C08_log_grows n s
+/-- **C08 about the code as translated on this run**: `Gen.Node.eval_with_context_mut` — the body of
+`Node::eval_with_context_mut` (src/tree/mod.rs) rendered by `translate_fn.py`, calling the rendered `Operator::eval_mut` —
+computes exactly the big-step relation (`fn_Node_eval_with_context_mut_agree` + `C08_adequate`); likewise the read-only walker
+computes the model's read-only evaluator -/
+theorem C08_adequate_generated (n : Node) (s s' : St) (r : Res Value) :
+    Eval n s r s' ↔ Gen.Node.eval_with_context_mut n s = (r, s') := by
+  rw [AgreeFn.fn_Node_eval_with_context_mut_agree]; exact C08_adequate n s s' r
+theorem C08_generated_ro (n : Node) (s : St) : Gen.Node.eval_with_context n s = n.evalRO s :=
+  AgreeFn.fn_Node_eval_with_context_agree n s
 /-- `false && f(1)` still calls `f` -/
 theorem C08_no_short_circuit_example :
     let ctx : Ctx := .hashMap { funs := [(['f'], fun v => .ok v)] }
